@@ -24,6 +24,11 @@ fn main() {
         std::process::exit(2);
     }
     let id = args[1].clone();
+    if id == "c11-child" {
+        libg::install_panic_hook();
+        checks::c11::child_main(&args[2], args[3].parse().expect("seed"), args[4].parse().expect("budget"));
+        std::process::exit(0);
+    }
     let mut cfg = RunConfig {
         tier: match std::env::var("VERIF_TIER").as_deref() {
             Ok("thorough") => Tier::Thorough,
